@@ -152,14 +152,7 @@ pub fn one_c07(prop: &str, c: &Case, rep: &mut Report) {
                 *seen.entry((l, r, shift_key(f.shift(), w))).or_insert(0) += 1;
             }
         }
-        for ((l, r, sh), cnt) in &seen {
-            if *cnt != 1 {
-                rep.violations.push(Violation::new(prop, "c07.face_stored_twice", format!("{route}: face {l}->{r} shift {sh:?} is stored {cnt} times"), Some(c), json!({"left": l, "right": r, "route": route})));
-            }
-            if mask[*r] && *sh == [0, 0, 0] && seen.contains_key(&(*r, *l, [0, 0, 0])) {
-                rep.violations.push(Violation::new(prop, "c07.face_stored_from_both_sides", format!("{route}: unshifted face between selected cells {l} and {r} is stored from both sides"), Some(c), json!({"left": l, "right": r, "route": route})));
-            }
-        }
+        bookkeeping(prop, route, c, &mask, &seen, rep);
         // selected / unselected pairs adjacent in the full build: exactly one face, selected on the left
         for i in 0..n {
             if !mask[i] {
@@ -179,6 +172,43 @@ pub fn one_c07(prop: &str, c: &Case, rep: &mut Report) {
             }
         }
     }
+    // the symmetric face integrals of the partial integrator obey the same book-keeping rule
+    {
+        let route = "compute_face_integrals_sym";
+        let sym = vi_part.compute_face_integrals_sym::<AreaCentroidIntegral>();
+        let mut seen: BTreeMap<(usize, usize, [i8; 3]), usize> = BTreeMap::new();
+        for f in &sym {
+            let l = f.left();
+            if l >= n || !mask[l] {
+                rep.violations.push(Violation::new(prop, "c07.unselected_left", format!("{route}: a face has the unselected cell {l} on its left (right {:?})", f.right()), Some(c), json!({"route": route})));
+                continue;
+            }
+            if let Some(r) = f.right() {
+                *seen.entry((l, r, shift_key(f.shift(), w))).or_insert(0) += 1;
+            }
+        }
+        bookkeeping(prop, route, c, &mask, &seen, rep);
+        for i in 0..n {
+            if !mask[i] {
+                continue;
+            }
+            for (k, f) in listed_keys(&full, i, w) {
+                let Key::Gen(j, sh) = k else { continue };
+                if f.area <= s.athr {
+                    continue;
+                }
+                // a face towards an unselected cell: once, from the selected side; between two selected cells
+                // without shift: once in total; with shift: once from each side
+                let cnt = seen.get(&(i, j, sh)).copied().unwrap_or(0);
+                let rev = seen.get(&(j, i, [-sh[0], -sh[1], -sh[2]])).copied().unwrap_or(0);
+                let ok = if !mask[j] { cnt == 1 && rev == 0 } else if sh == [0, 0, 0] { cnt + rev == 1 } else { cnt == 1 };
+                rep.count("sym_integral_faces_checked", 1);
+                if !ok {
+                    rep.violations.push(Violation::new(prop, "c07.sym_integral_face", format!("{route}: face between selected cell {i} and {} cell {j} (shift {sh:?}, area {:e}) is reported {cnt} times from {i} and {rev} times from {j}", if mask[j] { "selected" } else { "unselected" }, f.area), Some(c), json!({"left": i, "right": j, "route": route})));
+                }
+            }
+        }
+    }
     for i in 0..n {
         if vi_part.get_cell_at(i).is_some() != mask[i] {
             rep.violations.push(Violation::new(prop, "c07.get_cell_at", format!("get_cell_at({i}) is {} but mask[{i}] = {}", if mask[i] { "None" } else { "Some" }, mask[i]), Some(c), json!({"cell": i})));
@@ -186,6 +216,17 @@ pub fn one_c07(prop: &str, c: &Case, rep: &mut Report) {
     }
     rep.count("masks_checked", 1);
     note_case(rep, c, nsel > 0 && nsel < n);
+}
+
+fn bookkeeping(prop: &str, route: &str, c: &Case, mask: &[bool], seen: &BTreeMap<(usize, usize, [i8; 3]), usize>, rep: &mut Report) {
+    for ((l, r, sh), cnt) in seen {
+        if *cnt != 1 {
+            rep.violations.push(Violation::new(prop, "c07.face_stored_twice", format!("{route}: face {l}->{r} shift {sh:?} is stored {cnt} times"), Some(c), json!({"left": l, "right": r, "route": route})));
+        }
+        if mask[*r] && *sh == [0, 0, 0] && seen.contains_key(&(*r, *l, [0, 0, 0])) {
+            rep.violations.push(Violation::new(prop, "c07.face_stored_from_both_sides", format!("{route}: unshifted face between selected cells {l} and {r} is stored from both sides"), Some(c), json!({"left": l, "right": r, "route": route})));
+        }
+    }
 }
 
 pub fn c07(a: &Args, rep: &mut Report) {
